@@ -630,6 +630,11 @@ func runHarness(verif, repo, harness string, req replayReq) ([]replayHit, string
 	for _, f := range files {
 		repl[filepath.Join(repo, sub, "zz_verif_"+filepath.Base(f))] = f
 	}
+	if src, ok := harnessShims[sub]; ok && src != "" {
+		sf := filepath.Join(tmp, "shims_test.go")
+		os.WriteFile(sf, []byte(src), 0o644)
+		repl[filepath.Join(repo, sub, "zz_verif_renamed_test.go")] = sf
+	}
 	if sub != "" {
 		pkgPath = "./" + sub
 	}
